@@ -176,7 +176,7 @@ class FSA:
         return self._in_dict
 
     def has_edge(self, tail, head):
-        return len(self._out_dict[tail][head]) > 0
+        return len(self._out_dict[tail].get(head, [])) > 0
 
     def edges_out(self, vertex):
         """Get the list of edges directed away from a vertex.
